@@ -7,6 +7,7 @@ from ..flow import enumerate_paths
 from ..source import norm, const_value, walk_no_nested
 from ..specs import operators as optab
 from . import coretypes as ct
+from . import array_folds as af
 from .common import calls_in, is_name, params, single_return, root_name, returns_of
 from .units_rules import check_wrap_helpers
 
@@ -26,295 +27,45 @@ TRUSTED = ("CPython ast", "numpy/pint behave as documented", "S4 catalogue (from
 
 
 def r1_protocols(run, tree):
-    run.rule("C10.R1", "numpy protocols forward everything to _wrap_numpy", "path rule", "", floor=2)
-    base = tree.cls("core/base.py::Base")
-    # __array_ufunc__
-    fi = tree.method(base, "__array_ufunc__")
-    construct = "core/base.py::Base.__array_ufunc__"
-    if fi is None:
-        run.violated(construct, base.module.rel, "__array_ufunc__ is not defined", "np.sqrt(a) falls back to ndarray conversion")
-    else:
-        run.analysed(fi)
-        pn = params(fi)
-        a = fi.node.args
-        ok, why = True, []
-        if len(pn) < 3 or a.vararg is None or a.kwarg is None:
-            ok, why = False, ["signature changed: %s" % norm(a)]
-        else:
-            UF, METHOD = pn[1], pn[2]
-            for path in enumerate_paths(fi.node.body):
-                ex = path[-1]
-                is_call_method = None
-                for it in path:
-                    if it[0] == "test":
-                        t = it[1]
-                        if isinstance(t, ast.Compare) and is_name(t.left, METHOD) and len(t.ops) == 1 and \
-                                const_value(t.comparators[0]) == "__call__":
-                            v = it[2] if isinstance(t.ops[0], ast.Eq) else (not it[2]) if isinstance(t.ops[0], ast.NotEq) else None
-                            is_call_method = v
-                        else:
-                            ok = False
-                            why.append("dispatch depends on another condition: %s" % norm(t))
-                if ex[1] != "return" or ex[2].value is None:
-                    ok = False
-                    why.append("a path does not return a value")
-                    continue
-                rv = ex[2].value
-                if is_call_method is False:
-                    if not is_name(rv, "NotImplemented"):
-                        ok = False
-                        why.append("non-call method returns %s" % norm(rv))
-                else:
-                    if not _is_forward(rv, pn[0], UF, a.vararg.arg, a.kwarg.arg):
-                        ok = False
-                        why.append("`__call__` path returns %s instead of self._wrap_numpy(%s, *%s, **%s)" % (
-                            norm(rv), UF, a.vararg.arg, a.kwarg.arg))
-        run.ob(construct, ok, fi.where(), "; ".join(why) or "forwards ufunc, *inputs, **kwargs; NotImplemented only for "
-               "method != '__call__'", "some ufunc (or keyword form such as out=, where=) bypasses the unit wrapper")
-    fi = tree.method(base, "__array_function__")
-    construct = "core/base.py::Base.__array_function__"
-    if fi is None:
-        run.violated(construct, base.module.rel, "__array_function__ is not defined", "np.concatenate/np.sum on Arrays")
-    else:
-        run.analysed(fi)
-        pn = params(fi)
-        rets = returns_of(fi.node)
-        ok = len(pn) == 5 and len(rets) == 1 and rets[0].value is not None and _is_forward(
-            rets[0].value, pn[0], pn[1], pn[3], pn[4]) and len(list(enumerate_paths(fi.node.body))) == 1
-        run.ob(construct, ok, fi.where(), "returns %s" % (norm(rets[0].value) if rets and rets[0].value is not None else "?"),
-               "an array function (np.sum, np.concatenate, axis= forms) bypasses the unit wrapper")
+    run.rule("C10.R1", "numpy protocols forward everything to _wrap_numpy", "D7 fold of Base.__array_ufunc__/__array_function__", "", floor=2)
+    af.check_protocols_fold(run, tree)
 
 
-def _is_forward(rv, SELF, F, ARGS, KW):
-    if not (isinstance(rv, ast.Call) and isinstance(rv.func, ast.Attribute) and rv.func.attr == "_wrap_numpy"
-            and is_name(rv.func.value, SELF)):
-        return False
-    if len(rv.args) != 2 or not is_name(rv.args[0], F):
-        return False
-    if not (isinstance(rv.args[1], ast.Starred) and is_name(rv.args[1].value, ARGS)):
-        return False
-    return len(rv.keywords) == 1 and rv.keywords[0].arg is None and is_name(rv.keywords[0].value, KW)
 
 
 def r2_catalogue(run, tree):
-    run.rule("C10.R2", "unit-transforming catalogue is a subset of APPLY_OP_TO_UNIT", "table", "property text of C10", floor=8)
-    f = ct.analyse_wrap_numpy(tree)
-    run.analysed(f.fi)
-    if f.apply_tuple is None:
-        run.unresolved(ct.ARRAY + "._wrap_numpy::APPLY_OP_TO_UNIT", f.fi.where(), "unit-transforming set not found")
-        return
-    for nm in optab.UNIT_TRANSFORMING:
-        run.ob("%s::APPLY_OP_TO_UNIT[%s]" % (ct.ARRAY, nm), nm in f.apply_tuple, f.fi.where(),
-               "%s %s the set" % (nm, "in" if nm in f.apply_tuple else "MISSING from"),
-               "np.%s(a) is labelled with the unit of a" % nm)
-    for nm in optab.UNIT_PRESERVING + optab.PREDICATES:
-        run.ob("%s::APPLY_OP_TO_UNIT[not %s]" % (ct.ARRAY, nm), nm not in f.apply_tuple, f.fi.where(),
-               "%s must not be in the set" % nm, "np.%s applied to unit quantities" % nm, nontrivial=False)
-    # derivation / inheritance per path (same as C02.R3)
-    from .c02 import unit_derivation_body
-    unit_derivation_body(run, tree)
+    run.rule("C10.R2", "functions of the property's unit-transforming catalogue get the unit derived by applying them to the operand units; "
+             "others inherit", "D7 fold of _wrap_numpy per function name", "property text of C10", floor=8)
+    af.check_wrap_numpy_fold(run, tree, want=("derive", "inherit"))
 
 
 def r3_no_inherit_without_reconcile(run, tree):
-    run.rule("C10.R3", "no unit inheritance without reconciling the operands", "path rule", "", floor=1)
-    f = ct.analyse_wrap_numpy(tree)
-    fi = f.fi
-    # a reconciliation is any statement, before the inheriting assignment on the same path, that converts other
-    # operands to self.unit (.to(self.unit)) or compares their units with it and raises
-    inherit_paths = [p for p in f.paths if p["unit"] == "inherit"]
-    if not inherit_paths:
-        run.holds(ct.ARRAY + "._wrap_numpy::inherit", fi.where(), "no path lets a result inherit self.unit")
-        return
-    unreconciled = False
-    for p in inherit_paths:
-        ok = False
-        for it in p["path"]:
-            if it[0] == "stmt" and it[1] is p["unit_node"]:
-                break
-            node = it[1] if it[0] in ("stmt", "test") else None
-            if node is None or not isinstance(node, ast.AST):
-                continue
-            for n in ast.walk(node):
-                if isinstance(n, ast.Call) and isinstance(n.func, ast.Attribute) and n.func.attr == "to" and n.args and \
-                        isinstance(n.args[0], ast.Attribute) and n.args[0].attr == "unit" and is_name(n.args[0].value, f.SELF):
-                    ok = True
-                if isinstance(n, ast.Compare) and any(isinstance(x, ast.Attribute) and x.attr in ("unit", "units")
-                                                        for x in [n.left] + n.comparators) and \
-                        any(isinstance(x, ast.Attribute) and x.attr == "unit" and is_name(x.value, f.SELF)
-                            for x in [n.left] + n.comparators):
-                    ok = True
-        if not ok:
-            unreconciled = True
-    run.ob(ct.ARRAY + "._wrap_numpy::inherit-self-unit-without-reconciling-operands", not unreconciled,
-           fi.where(inherit_paths[0]["unit_node"]),
-           "a numeric result of a function outside the unit-transforming set takes self.unit; the other operands' "
-           "units are %s" % ("never converted to or compared with it" if unreconciled else "reconciled first"),
-           "np.add(Array([1],'m'), Array([1],'cm')) = 2 m; np.concatenate of Arrays in m and cm; np.maximum(m, cm)")
+    run.rule("C10.R3", "no unit inheritance without reconciling the operands", "D7 fold: np.add(a [m], b [cm])", "", floor=1)
+    af.check_wrap_numpy_fold(run, tree, want=("k1",))
 
 
 def r4_dtype_gate(run, tree):
-    run.rule("C10.R4", "dtype gate: numeric results keep a unit, boolean results are dimensionless", "D7 fincase",
+    run.rule("C10.R4", "dtype gate: numeric results keep a unit, boolean results are dimensionless", "D7 fold over the dtype model",
              "numpy dtype model", floor=14)
-    ct.check_dtype_gate(run, tree, want_numeric=True, want_bool=True)
+    af.check_wrap_numpy_fold(run, tree, want=("gate-numeric", "gate-bool"))
 
 
-def out_aliases(f):
-    """local names bound to kwargs.pop('out', ...) / kwargs.get('out', ...) / kwargs['out']"""
-    names = set()
-    for n in walk_no_nested(f.fi.node):
-        if isinstance(n, ast.Assign) and len(n.targets) == 1 and isinstance(n.targets[0], ast.Name):
-            v = n.value
-            if isinstance(v, ast.Call) and isinstance(v.func, ast.Attribute) and is_name(v.func.value, f.KW) and \
-                    v.func.attr in ("pop", "get") and v.args and const_value(v.args[0]) == "out":
-                names.add(n.targets[0].id)
-            if isinstance(v, ast.Subscript) and is_name(v.value, f.KW) and const_value(v.slice) == "out":
-                names.add(n.targets[0].id)
-    return names
 
 
-def check_out_branch(run, tree, aliasing=True):
-    f = ct.analyse_wrap_numpy(tree)
-    fi = f.fi
-    run.analysed(fi)
-    n_out = 0
-    aliases = out_aliases(f)
-    f.out_aliases = aliases
-    for p in f.paths:
-        has_out = None
-        for test, outcome in p["conds"]:
-            if isinstance(test, ast.Compare) and const_value(test.left) == "out" and len(test.ops) == 1 and is_name(
-                    test.comparators[0], f.KW):
-                has_out = outcome if isinstance(test.ops[0], ast.In) else (not outcome)
-            if isinstance(test, ast.Compare) and isinstance(test.left, ast.Name) and test.left.id in aliases and len(test.ops) == 1 \
-                    and isinstance(test.comparators[0], ast.Constant) and test.comparators[0].value is None:
-                has_out = outcome if isinstance(test.ops[0], ast.IsNot) else (not outcome)
-            if isinstance(test, ast.Name) and test.id in aliases:
-                has_out = outcome
-        if p["exit"][1] != "return":
-            continue
-        rv = p["exit"][2].value
-        if has_out:
-            n_out += 1
-            # find the unit store on kwargs["out"][0]
-            stored = None
-            for it in p["path"]:
-                if it[0] == "stmt" and isinstance(it[1], ast.Assign):
-                    for t in it[1].targets:
-                        if isinstance(t, ast.Attribute) and t.attr == "unit" and _is_out0(t.value, f.KW, aliases):
-                            stored = it[1]
-            ok_store = stored is not None and is_name(stored.value, "unit")
-            run.ob(ct.ARRAY + "._wrap_numpy::out-unit-store", ok_store, fi.where(stored) if stored else fi.where(),
-                   "with out=: %s" % ("the derived unit is assigned to out[0].unit" if ok_store else
-                                      "the unit of the out object is not updated with the derived unit"),
-                   "x *= y keeps the old unit of x")
-            run.ob(ct.ARRAY + "._wrap_numpy::out-returned", rv is not None and _is_out0(rv, f.KW, aliases), fi.where(p["exit"][2]),
-                   "with out=: returns %s" % (norm(rv) if rv is not None else "None"),
-                   "x += y rebinds x to a new object: other references to the same Array do not see the update")
-        elif has_out is False:
-            ok = isinstance(rv, ast.Call) and any(k.arg == "unit" and is_name(k.value, "unit") for k in rv.keywords) and \
-                any(k.arg == "values" for k in rv.keywords)
-            run.ob(ct.ARRAY + "._wrap_numpy::result-wrapped", ok, fi.where(p["exit"][2]),
-                   "without out=: returns %s" % (norm(rv)[:80] if rv is not None else "None"),
-                   "the derived unit is not attached to the result", nontrivial=False)
-    if n_out == 0:
-        run.unresolved(ct.ARRAY + "._wrap_numpy::out-branch", fi.where(), "no path handles out=")
-    if not aliasing:
-        return
-    # numpy must receive out (so that it writes into the existing buffer): the result call forwards the processed kwargs
-    rc = None
-    for p in f.paths:
-        if p["result_call"] is not None:
-            rc = p["result_call"]
-    if rc is None:
-        run.unresolved(ct.ARRAY + "._wrap_numpy::numpy-call", fi.where(), "call of `func` on the raw arrays not found")
-        return
-    fwd = False
-    for k in rc.keywords:
-        if k.arg is None:
-            v = k.value
-            if is_name(v, f.KW):
-                fwd = "raw"
-            elif isinstance(v, ast.Call) and isinstance(v.func, ast.Attribute) and v.func.attr == "_extract_arrays_from_kwargs" \
-                    and len(v.args) == 1 and is_name(v.args[0], f.KW):
-                fwd = "extracted"
-    removed = []
-    for n in walk_no_nested(fi.node):
-        if isinstance(n, ast.Call) and isinstance(n.func, ast.Attribute) and is_name(n.func.value, f.KW) and \
-                n.func.attr in ("pop", "popitem", "clear"):
-            removed.append(n)
-        if isinstance(n, ast.Delete):
-            for t in n.targets:
-                if root_name(t) == f.KW:
-                    removed.append(n)
-        if isinstance(n, ast.Assign):
-            for t in n.targets:
-                if is_name(t, f.KW):
-                    removed.append(n)
-    run.ob(ct.ARRAY + "._wrap_numpy::out-forwarded-to-numpy", fwd == "extracted" and not removed,
-           fi.where(removed[0]) if removed else fi.where(rc),
-           "numpy call receives %s%s" % ({"raw": "the raw kwargs (Arrays, not buffers)", "extracted": "the buffers extracted "
-                                          "from all kwargs", False: "no kwargs"}[fwd],
-                                         "; kwargs modified before the call: %s" % norm(removed[0])[:60] if removed else ""),
-           "x += y allocates a new buffer: slices of x taken before the update and x no longer share data")
-    # the argument arrays: sequence case + plain case
-    ok_args = any(isinstance(a, ast.Starred) for a in rc.args)
-    run.ob(ct.ARRAY + "._wrap_numpy::numpy-call-args", ok_args, fi.where(rc), "numpy is called with %s" % norm(rc)[:90],
-           "operands dropped", nontrivial=False)
 
 
-def _is_out0(node, KW, aliases=()):
-    """kwargs["out"][0]  or  <alias of kwargs['out']>[0]"""
-    if not (isinstance(node, ast.Subscript) and const_value(node.slice) == 0):
-        return False
-    v = node.value
-    if isinstance(v, ast.Name) and v.id in aliases:
-        return True
-    return isinstance(v, ast.Subscript) and is_name(v.value, KW) and const_value(v.slice) == "out"
 
 
 def r5_out(run, tree):
-    run.rule("C10.R5", "out=: unit written to the out object, that object returned", "path rule", "",
+    run.rule("C10.R5", "out=: unit written to the out object, that object returned", "D7 fold of _wrap_numpy with out=", "",
              floor=2)
-    check_out_branch(run, tree, aliasing=False)
+    af.check_wrap_numpy_fold(run, tree, want=("out",))
 
 
 def r6_helpers(run, tree):
-    run.rule("C10.R6", "helpers extract arrays/units from every argument; other operands pass through", "D7 fincase", "",
-             floor=10)
-    check_wrap_helpers(run, tree)
-    ci = tree.cls(ct.ARRAY)
-    fi = tree.method(ci, "_extract_arrays_from_kwargs")
-    construct = ct.ARRAY + "._extract_arrays_from_kwargs"
-    if fi is None:
-        run.unresolved(construct, ci.module.rel, "helper not found")
-        return
-    ret = single_return(fi)
-    ok = isinstance(ret, ast.DictComp) and len(ret.generators) == 1 and not ret.generators[0].ifs and \
-        isinstance(ret.generators[0].iter, ast.Call) and norm(ret.generators[0].iter) == "%s.items()" % params(fi)[1]
-    run.ob(construct, ok, fi.where(), "maps over %s" % ("all keyword arguments" if ok else norm(ret)[:80] if ret is not None else "?"),
-           "a keyword operand (out=, where=) reaches numpy as an Array")
+    run.rule("C10.R6", "buffers/units extracted from every argument; other operands pass through", "D7 fold over operand kinds", "",
+             floor=4)
+    af.check_wrap_numpy_fold(run, tree, want=("operands",))
 
 
-def r7_sequences(run, tree):
-    run.rule("C10.R7", "sequence first argument unpacked element-wise (concatenate/stack)", "path rule", "", floor=1)
-    f = ct.analyse_wrap_numpy(tree)
-    fi = f.fi
-    found = None
-    for n in walk_no_nested(fi.node):
-        if isinstance(n, ast.If) and isinstance(n.test, ast.Call) and is_name(n.test.func, "isinstance"):
-            a0 = n.test.args[0]
-            if isinstance(a0, ast.Subscript) and is_name(a0.value, f.ARGS) and const_value(a0.slice) == 0:
-                found = n
-    if found is None:
-        run.unresolved(ct.ARRAY + "._wrap_numpy::sequence-case", fi.where(), "isinstance(args[0], (tuple, list)) test not found")
-        return
-    types = {norm(e) for e in (found.test.args[1].elts if isinstance(found.test.args[1], ast.Tuple) else [found.test.args[1]])}
-    body_src = " ".join(norm(s) for s in found.body)
-    ok = {"tuple", "list"} <= types and "_extract_arrays_from_args(%s[0])" % f.ARGS in body_src and \
-        "_extract_arrays_from_args(%s[1:])" % f.ARGS in body_src
-    run.ob(ct.ARRAY + "._wrap_numpy::sequence-case", ok, fi.where(found),
-           "sequence case handles %s and extracts from args[0] elements and args[1:]: %s" % (sorted(types), ok),
-           "np.concatenate([a, b]) passes Arrays (not buffers) to numpy")
-
-
-RULES = [r1_protocols, r2_catalogue, r3_no_inherit_without_reconcile, r4_dtype_gate, r5_out, r6_helpers, r7_sequences]
+RULES = [r1_protocols, r2_catalogue, r3_no_inherit_without_reconcile, r4_dtype_gate, r5_out, r6_helpers]
